@@ -380,6 +380,10 @@ impl<'a> Rd<'a> {
                 if !body.is_empty() && body.chars().all(|c| c.is_ascii_digit()) {
                     return Ok(parse_radix(neg, body, 10).unwrap());
                 }
+                // `1+` and `1-` are symbols (Guile's increment and decrement procedures)
+                if t == "1+" || t == "1-" {
+                    return Ok(Sx::Sym(t));
+                }
                 if !body.is_empty()
                     && body.starts_with(|c: char| c.is_ascii_digit() || c == '.')
                     && body.chars().any(|c| c.is_ascii_digit())
